@@ -65,6 +65,10 @@ def check_stateless(db, chk, rule: str, modnames: Iterable[str], scope: Optional
             chk.ob(rule, f"{mn}:{q}: no per-iteration value is latched from the first iteration of a loop (first rank's data reused for the others)", not la, mod.loc(f), found=la,
                    accepted="values derived from the loop variables are recomputed in every iteration", why="e.g. a name->type map built from the first rank's kernels leaves later ranks' new names unclassified",
                    key=f"{mn}:{q}|latch", nontrivial=False)
+            cf_ = H.cross_iteration_flows(f)
+            chk.ob(rule, f"{mn}:{q}: a rank's result does not read what an earlier rank's iteration stored (per-rank loops are independent)", not cf_, mod.loc(f), found=cf_,
+                   accepted="containers filled in a per-rank loop are only read after the loop (or under the key stored earlier in the same iteration)",
+                   why="e.g. an allow-list remembered from the first rank changes which kernels the later ranks list", key=f"{mn}:{q}|cross-iteration", nontrivial=False)
             for d in getattr(f, "decorator_list", []):
                 dn = ast.unparse(d.func if isinstance(d, ast.Call) else d)
                 if dn in _MEMO:
